@@ -67,6 +67,18 @@ def numsOKL : List Payload → Bool
   | v :: vs => numsOK v && numsOKL vs
 end
 
+/-! an infinite number occurs somewhere -/
+mutual
+def hasInf : Payload → Bool
+  | .n x => x.isInf
+  | .marked _ r => hasInf r
+  | .seq vs | .smap _ vs | .sset _ vs => hasInfL vs
+  | _ => false
+def hasInfL : List Payload → Bool
+  | [] => false
+  | v :: vs => hasInf v || hasInfL vs
+end
+
 /-! every string value and map key is a fixed point of `norm` (what `cty.StringVal` /
 `cty.MapVal` establish; part of well-formedness, an oracle column in the harness) -/
 mutual
